@@ -417,9 +417,19 @@ def oracle(gr, jobs, order, out, names, maximal, vnum, want_spec):
             jobname.setdefault(n[1], []).append((n[0], sorted(vnum[v] for v in j.pkgs)))
     collisions = {k: v for k, v in jobname.items() if len(v) > 1}
     if collisions:
-        k = sorted(collisions)[0]
-        bad.append((SIG_F4, "distinct jobs %r all get the internal Jenkins job name %r" % (
-            sorted(set(d for d, _ in collisions[k])), k)))
+        # known finding F4 is about DIFFERENT job names that only the internal (sanitised) naming identifies
+        # (lib / Lib, a.b / a_b); two distinct jobs with the very same name are another matter (seed C20-3)
+        same = sorted(k for k, v in collisions.items() if len(set(d for d, _ in v)) < len(v))
+        diff = sorted(k for k, v in collisions.items() if len(set(d for d, _ in v)) > 1)
+        if diff:
+            bad.append((SIG_F4, "distinct jobs %r all get the internal Jenkins job name %r" % (
+                sorted(set(d for d, _ in collisions[diff[0]])), diff[0])))
+        for k in same:
+            # the pinned tree's counting suffix (q -> q-1, q-2 for the jobs of a split recipe) may hit the name of
+            # another recipe (q-1): known, corpus f4_numbering_collision. Anything else is a different violation.
+            numbered = re.match(r"^.+-[0-9]+$", k) is not None
+            bad.append(("jenkins-job-name-not-unique" + (":counting-suffix-equals-other-name" if numbered else ""),
+                        "%d distinct jobs (packages %r) are all named %r" % (len(collisions[k]), [pk for _, pk in collisions[k]], k)))
     if out["gen"] == "exception":
         if collisions:
             pass    # consequence of the collision (jobs merged by name): reported under the collision signature
